@@ -67,6 +67,7 @@ fn main() {
         let budgets: &[(&str, u64)] = if tier == "thorough" { &[("thorough", 7), ("thorough", 8)] } else { &[("quick", 101), ("quick", 102), ("thorough", 103)] };
         for (t, s) in budgets {
             if let Some(more) = props::cases(prop, t, seed.wrapping_add(*s)) {
+                core::watch_clear();
                 searched += more.len();
                 let r2 = core::evaluate(prop, driver, more);
                 if !r2.oracle_failures.is_empty() {
